@@ -23,7 +23,7 @@ US = 1000  # logical clock step: 1 microsecond, so that all mutations fall into 
 def alphabet():
     ops = []
     for f in FILES:
-        for m in ("w1", "w2", "w3", "repl", "touch", "rm"):
+        for m in ("w1", "w2", "w3", "repl", "replm", "touch", "rm"):
             ops.append((m, f))
     for f in FILES:
         ops.append(("get", f))
@@ -31,10 +31,12 @@ def alphabet():
         ops.append(("hash", f))
         ops.append(("sv", f))
     ops += [("many",), ("build",), ("imd5",), ("update",)]
+    # a user write that lands *during* a library call, between hashing and recording
+    ops += [("build-midwrite", "f1"), ("hash-midwrite", "f1"), ("imd5-midwrite", "f1")]
     return ops
 
 
-MUT = {"w1", "w2", "w3", "repl", "touch", "rm"}
+MUT = {"w1", "w2", "w3", "repl", "replm", "touch", "rm"}
 
 
 def cur(path):
@@ -99,6 +101,18 @@ def run_history(hist, init):
                             fh.write(C["c2"])
                         os.rename(tmp, p)
                         stamp(p, US)
+                    elif k == "replm":
+                        # atomic replacement by different bytes of the same size carrying the *old* mtime:
+                        # only the inode tells the difference
+                        if os.path.exists(p):
+                            st0 = os.stat(p)
+                            old = open(p, "rb").read()
+                            new = bytes((b + 1) % 256 for b in old) or b""
+                            tmp = p + ".new"
+                            with open(tmp, "wb") as fh:
+                                fh.write(new)
+                            os.utime(tmp, ns=(st0.st_mtime_ns, st0.st_mtime_ns))
+                            os.rename(tmp, p)
                     elif k == "touch":
                         if os.path.exists(p):
                             stamp(p, US)
@@ -152,6 +166,43 @@ def run_history(hist, init):
                     for key, e in prev_idx.iteritems():
                         if e.hash_info is not None:
                             answer("index-md5", key[-1], e.hash_info.value, i, op)
+                elif k.endswith("-midwrite"):
+                    p = paths[op[1]]
+                    if os.path.exists(p):
+                        orig_many, orig_one = state.save_many, state.save
+                        fired = []
+
+                        def edit():
+                            if not fired:
+                                fired.append(1)
+                                old = open(p, "rb").read()
+                                write(p, bytes((b + 3) % 256 for b in old) or b"z")
+
+                        def save_many(items, fs, _o=orig_many):
+                            items = list(items)
+                            edit()
+                            return _o(items, fs)
+
+                        def save(path, fs, hi, info=None, _o=orig_one):
+                            edit()
+                            return _o(path, fs, hi, info=info)
+
+                        state.save_many, state.save = save_many, save
+                        try:
+                            if k == "build-midwrite":
+                                build(odb, ws, LFS, "md5", dry_run=True)
+                            elif k == "hash-midwrite":
+                                hash_file(p, LFS, "md5", state=state, info=LFS.info(p))
+                            else:
+                                prev_idx = imd5(ibuild(ws, LFS), state=state)
+                        finally:
+                            state.save_many, state.save = orig_many, orig_one
+                        # the answers of that call describe the file as it was when read; what matters is
+                        # that nothing stale was *recorded*: ask again now
+                        for f in FILES:
+                            if os.path.exists(paths[f]):
+                                _m, hi2 = state.get(paths[f], LFS)
+                                answer("get-after-midwrite", f, hi2.value if hi2 is not None and hi2.name == "md5" else None, i, op)
                 elif k == "update":
                     if prev_idx is not None:
                         new = ibuild(ws, LFS)
@@ -343,7 +394,7 @@ def run(ctx):
     ops = alphabet()
     ctx.rule = (
         f"E2: every history of length {depth} over {len(ops)} operations on 2 files (write c1 / c2 same size / "
-        "c3 other size, atomic replace, touch, delete; state.get with/without caller info, get_many, hash_file, "
+        "c3 other size, atomic replace, atomic replace keeping size and mtime, touch, delete, a write landing inside a build / hash_file / index md5 call between hashing and recording; state.get with/without caller info, get_many, hash_file, "
         "state.save, dry staging build, index build+md5, index update from the previous index) from a cold and "
         "from a warm initial state, under a strictly increasing logical clock; batch lookups of "
         "{1,2,998,999,1000,1001,1999} paths in both orders with entries invalidated at the chunk edges; forged "
